@@ -5,19 +5,14 @@ Import ListNotations.
 Open Scope string_scope.
 
 
-(* saml2/sigver.py:RSACrypto.get_signer, lines 574-582 *)
-Definition src2_get_signer (v_self : pyval) (v_sigalg : pyval) (v_sigkey : pyval) : pyval :=
-  let v_signer := PErr in
-  (py_bindh (fun n_5 => (if exc_matches n_5 ["KeyError"]
-   then PNone
-   else (PExc n_5))) (p2_getitem (PObj [("http://www.w3.org/2000/09/xmldsig#rsa-sha1", (PObj [("__class__", PStr "RSASigner"); ("key", PNone); ("digest", (PStr "SHA1"))])); ("http://www.w3.org/2001/04/xmldsig-more#rsa-sha224", (PObj [("__class__", PStr "RSASigner"); ("key", PNone); ("digest", (PStr "SHA224"))])); ("http://www.w3.org/2001/04/xmldsig-more#rsa-sha256", (PObj [("__class__", PStr "RSASigner"); ("key", PNone); ("digest", (PStr "SHA256"))])); ("http://www.w3.org/2001/04/xmldsig-more#rsa-sha384", (PObj [("__class__", PStr "RSASigner"); ("key", PNone); ("digest", (PStr "SHA384"))])); ("http://www.w3.org/2001/04/xmldsig-more#rsa-sha512", (PObj [("__class__", PStr "RSASigner"); ("key", PNone); ("digest", (PStr "SHA512"))]))]) v_sigalg) (fun v_signer =>
-   (py_bind (p2_attr v_signer "digest") (fun a_1 => (py_bind (p2_or v_sigkey (p2_attr v_self "key")) (fun a_2 => (PObj [("__class__", PStr "RSASigner"); ("key", a_2); ("digest", a_1)]))))))).
+(* UNTRANSLATABLE RSACrypto.get_signer: mutating call .setdefault() inside an expression *)
+Definition src2_get_signer (v_self : pyval) (v_sigalg : pyval) (v_sigkey : pyval) : pyval := PErr.
 
-(* saml2/sigver.py:RSASigner.sign, lines 542-543 *)
+(* saml2/sigver.py:RSASigner.sign, lines 547-548 *)
 Definition src2_sign (key_sign : pyval -> pyval -> pyval -> pyval) (v_self : pyval) (v_msg : pyval) (v_key : pyval) : pyval :=
   (py_bind (p2_or v_key (p2_attr v_self "key")) (fun a_1 => (py_bind v_msg (fun a_2 => (py_bind (p2_attr v_self "digest") (fun a_3 => (key_sign a_1 a_2 a_3))))))).
 
-(* saml2/sigver.py:RSASigner.verify, lines 545-546 *)
+(* saml2/sigver.py:RSASigner.verify, lines 550-551 *)
 Definition src2_verify (key_verify : pyval -> pyval -> pyval -> pyval -> pyval) (v_self : pyval) (v_msg : pyval) (v_sig : pyval) (v_key : pyval) : pyval :=
   (py_bind (p2_or v_key (p2_attr v_self "key")) (fun a_1 => (py_bind v_sig (fun a_2 => (py_bind v_msg (fun a_3 => (py_bind (p2_attr v_self "digest") (fun a_4 => (key_verify a_1 a_2 a_3 a_4))))))))).
 
@@ -122,7 +117,7 @@ Definition src2_config_getattr (v_self : pyval) (v_attr : pyval) (v_context : py
    | BErr => PErr
    end)).
 
-(* saml2/sigver.py:security_context, lines 975-1048 *)
+(* saml2/sigver.py:security_context, lines 989-1062 *)
 Definition src2_security_context (import_key : pyval -> pyval) (read_cert : pyval -> pyval) (path_exists : pyval -> pyval) (find_xmlsec : pyval -> pyval) (xmlsec_backend : pyval -> pyval -> pyval) (v_conf : pyval) : pyval :=
   let v_metadata := PErr in
   let v_sec_backend := PErr in
